@@ -263,6 +263,16 @@ func build(root string, v variant) {
 				_ = os.MkdirAll(filepath.Dir(parent), 0o755)
 				_ = os.WriteFile(parent, []byte("x"), 0o644)
 			}
+		case 's':
+			// a symbolic link to a regular file kept elsewhere: for the digest it IS the file of that path and content
+			_ = os.MkdirAll(filepath.Dir(p), 0o755)
+			tdir := filepath.Join(root, ".targets")
+			_ = os.MkdirAll(tdir, 0o755)
+			tgt := filepath.Join(tdir, fmt.Sprintf("t%x", sha256.Sum256([]byte(e.rel)))[:20])
+			_ = os.WriteFile(tgt, []byte(e.content), 0o644)
+			_ = os.Chtimes(tgt, fixedTime, fixedTime)
+			_ = os.Remove(p)
+			_ = os.Symlink(tgt, p)
 		case 'l':
 			_ = os.MkdirAll(filepath.Dir(p), 0o755)
 			_ = os.Symlink("no-such-target", p)
@@ -493,6 +503,7 @@ func runInner(caseLine string, g group) string {
 type coll []entry
 
 func f(rel, content string) entry { return entry{'f', rel, content} }
+func sl(rel, content string) entry { return entry{'s', rel, content} }
 func d(rel string) entry          { return entry{'d', rel, ""} }
 
 // base collections: prefix / concatenation names (a, ab, a/b is split over two universes because a cannot be both a
@@ -518,6 +529,12 @@ func bases() []coll {
 		{f("a", "1"), f("b", "2"), f("c", "3"), f("d/a", "4"), f("d/b", "5")},
 		{f("a", "1"), f("b", "1"), f("ab", "2"), d("d"), f("d/a", "")},
 		{f("a", "2"), f("b", "1"), d("g"), f("a", "2"), d("g")},
+		// dependencies that are symbolic links to regular files
+		{sl("lnk", "1"), f("a", "1")},
+		{sl("l1", "x"), sl("d/l2", "x"), f("b", "y")},
+		// names that are not valid UTF-8 and differ only there
+		{f("r\xe9sum\xe9-\xe9.txt", "1"), f("r\xe9sum\xe9-\xe8.txt", "2")},
+		{f("\xff", "1"), f("\xfe", "1"), f("\xef\xbf\xbd", "1")},
 	}
 }
 
@@ -604,7 +621,7 @@ func freeNames(c coll) []string {
 func setContent(c coll, rel, content string) coll {
 	r := clone(c)
 	for i := range r {
-		if r[i].rel == rel && r[i].kind == 'f' {
+		if r[i].rel == rel && (r[i].kind == 'f' || r[i].kind == 's') {
 			r[i].content = content
 		}
 	}
@@ -614,7 +631,7 @@ func setContent(c coll, rel, content string) coll {
 func rename(c coll, rel, to string) coll {
 	r := clone(c)
 	for i := range r {
-		if r[i].rel == rel && r[i].kind == 'f' {
+		if r[i].rel == rel && (r[i].kind == 'f' || r[i].kind == 's') {
 			r[i].rel = to
 		}
 	}
@@ -628,7 +645,7 @@ func edits(c coll, rng *rand.Rand, max int) []variant {
 	var files []entry
 	seen := map[string]bool{}
 	for _, e := range c {
-		if e.kind == 'f' && !seen[e.rel] {
+		if (e.kind == 'f' || e.kind == 's') && !seen[e.rel] {
 			seen[e.rel] = true
 			files = append(files, e)
 		}
@@ -682,7 +699,7 @@ func edits(c coll, rng *rand.Rand, max int) []variant {
 	for _, dn := range dirPool {
 		isFile := false
 		for _, e := range c {
-			if e.kind == 'f' && (e.rel == dn || strings.HasPrefix(dn, e.rel+"/")) {
+			if (e.kind == 'f' || e.kind == 's') && (e.rel == dn || strings.HasPrefix(dn, e.rel+"/")) {
 				isFile = true
 			}
 		}
@@ -749,7 +766,7 @@ func randColl(rng *rand.Rand, maxN int) coll {
 			dn := dirPool[rng.Intn(len(dirPool))]
 			bad := false
 			for _, e := range c {
-				if e.kind == 'f' && (e.rel == dn || strings.HasPrefix(dn, e.rel+"/")) {
+				if (e.kind == 'f' || e.kind == 's') && (e.rel == dn || strings.HasPrefix(dn, e.rel+"/")) {
 					bad = true
 				}
 			}
